@@ -21,7 +21,7 @@ ID = 'C15'
 RULE = ('VacancyMediated: named crystals (2-D/3-D, multi-site, multi-Wyckoff, two species) with Nthermo 1 (2 on four cheap ones; '
         'thorough: 2 on all cheap ones, plus random crystals); Interstitial: random crystals of all lattice systems, 1-3 orbits, 1-2 species, random '
         'cutoff; per calculator 6 (quick) random user dictionaries: random subset of classes (probability 0..1), random '
-        'member tag, 0-3 duplicated classes, 0-4 bogus tags of 8 kinds; non-trivial = calculator with >= 2 classes; '
+        'member tag, 0-3 duplicated classes (60 % of them with three or four member tags), 0-4 bogus tags of 8 kinds; non-trivial = calculator with >= 2 classes; '
         'distinct = (calculator, crystal, Nthermo/cutoff class counts)')
 ASSUMPTIONS = ['tags carry 3 decimals of unit-cell coordinates: positions are matched with tolerance 1.2e-3 (unit cell), '
                'displacements with the corresponding Cartesian tolerance; crystals whose sites are closer than that are skipped',
@@ -32,7 +32,7 @@ ASSUMPTIONS = ['tags carry 3 decimals of unit-cell coordinates: positions are ma
 REQUIRED_OBS = {'vm_calculators': 8, 'int_calculators': 8, 'eval:C15:VM:tag-names-own-class': 500, 'eval:C15:Int:tag-names-own-class': 100,
                 'eval:C15:VM:unique': 8, 'eval:C15:Int:unique': 8, 'eval:C15:VM:preene-given': 100, 'eval:C15:VM:preene-default': 100,
                 'eval:C15:VM:preene-LIMB': 40, 'eval:C15:VM:verbose-missing': 40, 'eval:C15:VM:verbose-duplicates': 40,
-                'eval:C15:VM:verbose-bad': 40, 'duplicates_injected': 20, 'bogus_injected': 40, 'tagtypes_seen': 6,
+                'eval:C15:VM:verbose-bad': 40, 'duplicates_injected': 20, 'classes_with_three_or_more_tags': 8, 'bogus_injected': 40, 'tagtypes_seen': 6,
                 'dim2_calculators': 4, 'multiwyckoff_calculators': 2}
 CASE_TIMEOUT = 600
 CHUNK = 3
@@ -163,6 +163,20 @@ def check_tags2preene(mon, rng, calc, geo, ctx, nrounds):
             user[tag] = val
             given[(t, k)].append((tag, val))
             ndup += 1
+        # three or more member tags of one class (every one of them must appear in ONE duplicate entry)
+        ntriple = 0
+        for (t, k) in [key for key in given if len(given[key]) >= 2]:
+            if rng.uniform() < 0.6:
+                for _ in range(int(rng.integers(1, 3))):
+                    others = [x for x in calc.tags[t][k] if x not in user]
+                    if not others: break
+                    tag = others[int(rng.integers(len(others)))]
+                    val = (float(rng.uniform(0.2, 5.)), float(rng.normal() * 2))
+                    user[tag] = val
+                    given[(t, k)].append((tag, val))
+                    ndup += 1
+                ntriple += len(given[(t, k)]) >= 3
+        mon.count('classes_with_three_or_more_tags', ntriple)
         bogus = bogus_tags(rng, calc, geo, classify) if rnd != 1 else []
         for b in bogus: user[b] = (float(rng.uniform(0.2, 5.)), float(rng.normal()))
         # shuffle insertion order
